@@ -52,6 +52,28 @@ DECODER_PINS = [
 ]
 
 
+# entry-point glue that hands calldata / code arguments to the decoders (modelled by CdImpl.cd_entry / ctor_entry and
+# by the argument pointers of TplDecC.tpl_cd_l / tpl_cd_v)
+CD_PINS = [
+    ("vyper.codegen.function_definitions.external_function", "_register_function_args", "99f40066ad1789d8"),
+    ("vyper.codegen.function_definitions.external_function", "_generate_kwarg_handlers", "ee9746412650f25e"),
+    ("vyper.codegen_venom.module", "_register_positional_args", "e8a5246defad00fc"),
+    ("vyper.codegen_venom.module", "_register_constructor_args", "728dcc42f216687a"),
+    ("vyper.codegen_venom.module", "_init_kwargs_in_entry_point", "262fee5d4c2fc1a0"),
+    ("vyper.codegen_venom.module", "_emit_entry_checks", "234d7858b9434945"),
+    ("vyper.codegen.core", "_dynarray_make_setter", "4d908104467825a5"),
+    ("vyper.codegen.core", "copy_bytes", "d34f10a9b90466d0"),
+    ("vyper.codegen.core", "make_byte_array_copier", "3bf990975ec75822"),
+    ("vyper.codegen.core", "_prefer_copy_maxbound_heuristic", "55cb1821d6746400"),
+]
+
+
+def prebuild(ctx):
+    """setup_cmd: generate + compile the extension's files once so that quick runs reuse the .vo (content-keyed)"""
+    from vlib import c05_cdpart
+    c05_cdpart.prebuild(ctx)
+
+
 def directed_types():
     u8 = ("uint", 8)
     return [
@@ -593,10 +615,17 @@ def run(ctx):
                        "replay": "tools/vlib/c06_tpl.py export_legacy_dec / export_venom_dec on the listed shapes",
                        "search": "observed templates executed in Coq + corruption stream on the EVM ran" +
                                  ("; failing inputs reported" if found else "; no failing input")})
+    # ---- extension: calldata-source / code-source decoder templates of both generators (O-tie + run in Coq + cdec theorems)
+    try:
+        from vlib import c05_cdpart
+        total += c05_cdpart.run(ctx)
+    except Exception as e:  # noqa  (fail closed: an unexpected error in the part is reported, never swallowed)
+        ctx.violation("correspondence-broken", "calldata/code-source decoder part could not run",
+                      {"error": f"{type(e).__name__}: {e}"[:600]})
     from vlib import c06_pins
-    for name, got, exp in c06_pins.check(DECODER_PINS):
+    for name, got, exp in c06_pins.check(DECODER_PINS + CD_PINS):
         ctx.violation("correspondence-broken", f"decoder source no longer matches the implementation-level model "
-                      f"(DecImpl.v): {name}", {"function": name, "observed": got, "pinned": exp,
+                      f"(DecImpl.v / CdImpl.v): {name}", {"function": name, "observed": got, "pinned": exp,
                                                "search": "corruption stream ran" + (" and found failing inputs" if found else ", no failing input")})
     if ctx.nc_mismatch:
         ctx.violation("correspondence-broken", "needs_clamp model differs from a real copy (theorem needs_clamp_complete "
